@@ -35,6 +35,14 @@ struct CA {
   bool operator==(const CA &) const { return true; }
   bool operator!=(const CA &) const { return false; }
 };
+static bool g_fail = false;
+template <class T>
+struct FailAlloc : CA<T> {
+  FailAlloc() = default;
+  template <class U> FailAlloc(const FailAlloc<U> &) {}
+  template <class U> struct rebind { using other = FailAlloc<U>; };
+  T *allocate(size_t n) { if (g_fail) throw std::bad_alloc(); return CA<T>::allocate(n); }
+};
 static long live = 0, selfmove = 0; static int budget = 1 << 30;
 struct Boom {};
 struct E {
@@ -70,5 +78,6 @@ int main(int argc, char **argv) {
   if (f == "F14") { SmallSet<int, 2, std::less<int>, amc::allocator<int>, FlatSet<int>> t{1, 2, 3}; t.erase(t.begin()); t.erase(t.begin()); auto r = t.erase(t.begin()); printf("erase(last)==end()? %d (expect 1)\n", (int)(r == t.end())); }
   if (f == "F15") { printf("compile with -std=c++11: "); int buf[4]; int *r = amc::uninitialized_default_construct_n(buf, 3); printf("returned offset %ld (expect 3)\n", (long)(r - buf)); }
   if (f == "F16") { SmallSet<int, 3, Cmp> a{Cmp(true)}, b{Cmp(true)}; std::set<int, Cmp> ra{Cmp(true)}, rb{Cmp(true)}; for (int x : {1, 5}) { a.insert(x); ra.insert(x); } for (int x : {2, 4}) { b.insert(x); rb.insert(x); } printf("a<b amc=%d std=%d\n", (int)(a < b), (int)(ra < rb)); }
+  if (f == "F17") { vector<int, FailAlloc<int>> v{1, 2, 3}; v.reserve(20); g_fail = true; try { v.shrink_to_fit(); } catch (std::bad_alloc &) { printf("bad_alloc propagated (expected)\n"); } g_fail = false; printf("still alive, size=%d (pinned tree: std::terminate before this line)\n", (int)v.size()); }
   return 0;
 }
